@@ -4,6 +4,7 @@ import (
 	"fmt"
 	"io"
 	"math/rand"
+	"net"
 	"strconv"
 	"strings"
 	"sync"
@@ -61,6 +62,26 @@ type c33Node struct {
 	eventCh chan serf.Event
 	pending *serf.Query
 	barrier int
+	net     *memberlist.MockNetwork
+	fakes   int
+}
+
+// addFakes makes the node believe in k more alive protocol-5 members (through the memberlist event
+// delegate, as memberlist itself would) and gives each a reachable mock transport whose packets are
+// discarded: relayResponse then has targets, and the recording transport sees what is sent to them.
+func (n *c33Node) addFakes(k int) {
+	for i := 0; i < k; i++ {
+		n.fakes++
+		name := fmt.Sprintf("fake-%d", n.fakes)
+		tr := n.net.NewTransport(name)
+		go func() {
+			for range tr.PacketCh() {
+			}
+		}()
+		ip, port, _ := tr.FinalAdvertiseAddr("", 0)
+		n.conf.MemberlistConfig.Events.NotifyJoin(&memberlist.Node{Name: name, Addr: ip, Port: uint16(port),
+			PMin: 1, PMax: 5, PCur: 2, DMin: 2, DMax: 5, DCur: 5})
+	}
 }
 
 // sync pushes a uniquely named remote user event (Lamport time just below the event clock, so
@@ -178,8 +199,8 @@ func c33Exec(ops []string) []string {
 				continue
 			}
 			name := strings.Repeat("N", nl)
-			var net memberlist.MockNetwork
-			tr := &c33Transport{MockTransport: net.NewTransport(name)}
+			mnet := &memberlist.MockNetwork{}
+			tr := &c33Transport{MockTransport: mnet.NewTransport(name)}
 			conf := serf.DefaultConfig()
 			conf.Init()
 			conf.NodeName = name
@@ -199,7 +220,7 @@ func c33Exec(ops []string) []string {
 				outs = append(outs, "create-err")
 				continue
 			}
-			node = &c33Node{s: s, conf: conf, tr: tr, eventCh: ch}
+			node = &c33Node{s: s, conf: conf, tr: tr, eventCh: ch, net: mnet}
 			node.sync()
 			node.drainBroadcasts()
 			node.tr.take()
@@ -209,6 +230,17 @@ func c33Exec(ops []string) []string {
 		case len(f) == 1 && f[0] == "env":
 			ln := node.s.Memberlist().LocalNode()
 			outs = append(outs, fmt.Sprintf("%s %d", hexb(ln.Addr), ln.Port))
+		case len(f) == 2 && f[0] == "members":
+			k, err := strconv.Atoi(f[1])
+			if err != nil || k < 0 || k > 8 {
+				outs = append(outs, "bad-op")
+				continue
+			}
+			node.addFakes(k)
+			node.sync()
+			node.drainBroadcasts()
+			node.tr.take()
+			outs = append(outs, "ok")
 		case len(f) == 2 && f[0] == "witness":
 			lt, err := strconv.ParseUint(f[1], 10, 64)
 			if err != nil {
@@ -373,6 +405,12 @@ func c33RespEnc(lt uint64, nodeName string, pl []byte) int {
 	return len(raw)
 }
 
+func c33RelayEnc(lt uint64, nodeName string, pl []byte) int {
+	raw, _ := serf.VerifEncodeRelayMessage(5, net.UDPAddr{IP: make([]byte, 16), Port: 1}, nodeName,
+		&serf.VerifMsgQueryResponse{LTime: serf.LamportTime(lt), ID: 1 << 30, From: nodeName, Payload: pl})
+	return len(raw)
+}
+
 func c33GenCases(rng *rand.Rand, tier string) []Case {
 	var out []Case
 	n := 60
@@ -396,6 +434,11 @@ func c33GenCases(rng *rand.Rand, tier string) []Case {
 		nameLen := []int{0, 1, 5, 31, 32, 40}[rng.Intn(6)]
 		nodeName := strings.Repeat("N", nameLen)
 		ops := []string{fmt.Sprintf("cfg %d %d %d %d", ue, q, r, nameLen), "env"}
+		fakes := 0
+		if rng.Intn(2) == 0 {
+			fakes = 1 + rng.Intn(2)
+			ops = append(ops, fmt.Sprintf("members %d", fakes))
+		}
 		nt := false
 		k := 6 + rng.Intn(8)
 		evClock, qClock := uint64(1), uint64(1) // the generator's estimate, only used for aiming
@@ -423,6 +466,9 @@ func c33GenCases(rng *rand.Rand, tier string) []Case {
 					pl = "n"
 				}
 				ops = append(ops, fmt.Sprintf("event %d %s %s", nl, pl, []string{"t", "f"}[rng.Intn(2)]))
+				if total <= ue {
+					evClock++ // taken at message construction, also when the encoded form is then rejected
+				}
 				nt = true
 			case x < 6:
 				w := []uint64{5, 126, 127, 254, 255, 65534, 65535, 1<<32 - 2, 1<<32 - 1, 1 << 40}[rng.Intn(10)]
@@ -448,14 +494,20 @@ func c33GenCases(rng *rand.Rand, tier string) []Case {
 					pl = "n"
 				}
 				ops = append(ops, fmt.Sprintf("query %d %s %d %d %s %d", nl, pl, nf, rf, []string{"t", "f"}[rng.Intn(2)], to))
+				qClock++
 				nt = true
 			default:
 				if q < 150 {
 					continue
 				}
 				// a small query that is surely delivered, then a response around the response limit
-				ops = append(ops, fmt.Sprintf("query 1 n 0 0 f %d", int64(time.Hour)))
+				rf := []int{0, 1, 1, 2, 255}[rng.Intn(5)]
+				ops = append(ops, fmt.Sprintf("query 1 n 0 %d f %d", rf, int64(time.Hour)))
 				base := c33RespEnc(qClock, nodeName, []byte{})
+				if rf > 0 && rf <= fakes && rng.Intn(2) == 0 {
+					// aim the RELAYED copy (header + response) at the limit instead of the direct one
+					base = c33RelayEnc(qClock, nodeName, []byte{})
+				}
 				qClock++
 				plen := nn(r - base - 5 + rng.Intn(11))
 				if rng.Intn(3) == 0 {
@@ -486,7 +538,7 @@ func init() {
 	register(&Prop{
 		ID: "C33",
 		Rule: "one real node per case with limits from {0,1,30,64,512,1024,9215,9216} (or random) × query/response limits {0,40,100,200,1024,4000} × node name lengths {0,1,5,31,32,40}; 6-13 operations: user events with name+payload within ±3 of the configured limit, of 9216 and of the point where the encoded form crosses the limit (name lengths at 31/32/255/256, nil payloads), remote events moving the event clock to 1/2/3/5/9-byte Lamport times, queries with the encoded size within ±3..12 of the limit (filters, relay factor, ack, timeouts at int8/int16/int64 widths), responses within ±3..8 of the response limit incl. a second response; " +
-			"observed: returned error class, EventCh, broadcast queues (GetBroadcasts), packets written to the transport; non-trivial = the case contains an event, query or response; distinct = distinct op sequence",
+			"half of the cases with 1-2 fake alive members (relay targets) and relay factors 0/1/2/255, responses aimed at the point where the RELAYED copy crosses the limit; observed: returned error class, EventCh, broadcast queues (GetBroadcasts), response and relay packets written to the transport; non-trivial = the case contains an event, query or response; distinct = distinct op sequence",
 		Gen:  c33GenCases,
 		Exec: c33Exec,
 	})
